@@ -80,7 +80,8 @@ func controller(r *run.Rand, i int) srcFile {
 		sb.WriteString("@Service\n")
 	}
 	if base {
-		sb.WriteString(fmt.Sprintf("@RequestMapping(\"/base%d\")\n", i))
+		// some controllers share one base path
+		sb.WriteString(fmt.Sprintf("@RequestMapping(\"/base%d\")\n", i%2))
 	}
 	sb.WriteString("public class " + name + " {\n")
 	if r.Bool() {
@@ -93,6 +94,15 @@ func controller(r *run.Rand, i int) srcFile {
 			sb.WriteString("@RequestBody Order" + fmt.Sprint(i) + " body")
 		}
 		sb.WriteString(") { return null; }\n")
+	}
+	if r.Chance(2, 3) {
+		// the same verb and URI as in other controllers of the project (a health endpoint, a profile-specific stub):
+		// entries of different classes may coincide in everything but the class
+		uri := "/health"
+		if base {
+			uri = "/status"
+		}
+		sb.WriteString(fmt.Sprintf("    @GetMapping(\"%s\")\n    public String health() { return \"ok\"; }\n", uri))
 	}
 	sb.WriteString("}\n")
 	kind := "non-controller-with-mappings"
